@@ -586,6 +586,9 @@ func (t *FnTrans) condIntrinsic(kind string, c *ssa.CallCommon, args []Val, res 
 			t.fail("sync.Cond.Wait on %s.%s: no monitor declares this condition variable", tname, field)
 		}
 		t.abstr["cond-undeclared:"+tname+"."+field] = true
+		if kind == "signal" || kind == "broadcast" {
+			t.ghostAt("after notify") // "ghost after notify: ..." (Signal or Broadcast on an undeclared condition variable)
+		}
 		return true
 	}
 	sc, oc, dc := t.condComps(tname, field)
@@ -920,6 +923,9 @@ func (t *FnTrans) ghostAt(where string) {
 	}
 	// "before call X #n": the n-th call site of X in translation (reverse post-order) order
 	nth := 0
+	if where == "after select" {
+		nth = t.count("ghostsite:" + where) // ordinal in translation (reverse post-order) order
+	}
 	if strings.HasPrefix(where, "before call ") || strings.HasPrefix(where, "after call ") {
 		nth = t.count("ghostsite:" + where)
 		if o, ok := t.siteOrdinal(where[strings.Index(where, "call ")+5:]); ok {
@@ -937,6 +943,9 @@ func (t *FnTrans) ghostAt(where string) {
 			t.ghostHit[g] = true
 			env := t.selfEnv(t.cur, t.entry)
 			env.local = func(name string) (SVal, bool) { return t.localHere(name) }
+			if t.lastSelIdx != "" {
+				env.vars["selindex"] = SVal{S: t.lastSelIdx, Sort: "Int"}
+			}
 			if t.lastCallRes != nil {
 				// "ghost after call X": result names the value the call returned (result.0, ... for tuples: r0, r1)
 				if v, ok := t.vals[t.lastCallRes]; ok {
